@@ -51,7 +51,23 @@ pub fn await_or_diagnose(c: &mut Client, id: i64, what: &str, patience: Duration
             }
             Err(RecvError::Timeout) => {
                 waited += step;
-                let (blocked, states) = all_blocked(&c.thread_tag, 4, Duration::from_millis(40));
+                let (mut blocked, states) = all_blocked(&c.thread_tag, 4, Duration::from_millis(40));
+                if blocked && waited >= Duration::from_millis(800) {
+                    // a deadlock lasts. On a loaded machine the answer may be on its way (written by the
+                    // server, not yet read by this client's own threads) while every server thread sleeps:
+                    // the verdict is given only if nothing at all has moved three seconds later
+                    for _ in 0..6 {
+                        match c.wait_response(id, Duration::from_millis(500)) {
+                            Ok(v) => return Ok(v),
+                            Err(RecvError::Closed) => {
+                                return Err(Some(Failure::new("C08.server-died", "C08.server-died", format!("the connection closed while waiting for {what} (server main loop ended)"))));
+                            }
+                            Err(RecvError::Timeout) => waited += Duration::from_millis(500),
+                        }
+                    }
+                    let (still, later) = all_blocked(&c.thread_tag, 4, Duration::from_millis(40));
+                    blocked = still && later == states;
+                }
                 if blocked && waited >= Duration::from_millis(800) {
                     let dump: Vec<String> = states.iter().map(|t| format!("tid {} state {} syscall {} wchan {}", t.tid, t.state, t.syscall, t.wchan.trim())).collect();
                     return Err(Some(Failure::new(
@@ -313,6 +329,14 @@ pub fn run_schedule(handler: &str, requests: &[String], choices: &[String]) -> R
         }
         if s.parked.is_empty() {
             if !s.blocked.is_empty() {
+                // a deadlock lasts: the classification (asleep, not scheduled for some milliseconds) is
+                // confirmed a second and a half later. On a loaded machine a released thread may simply
+                // not have been given a processor yet, or wait for one of the harness's own locks
+                std::thread::sleep(Duration::from_millis(1500));
+                let again = sched.wait_settled(patience);
+                if again.as_ref() != Some(&s) {
+                    continue;
+                }
                 let log = sched.log();
                 let tail: Vec<String> = log.iter().rev().take(12).rev().map(|(a, s)| format!("{a}@{s}")).collect();
                 return finish(c, steps, Outcome::Deadlock(format!("no actor can be released; blocked: {:?}; last events: {tail:?}", s.blocked)), conc);
@@ -426,7 +450,7 @@ impl Property for C08 {
         "C08"
     }
     fn rule(&self) -> String {
-        "the real Server (router + lifecycle + concurrency layers) in-process over an in-memory pipe. Controlled part: per scenario - handler under test in {change root, change included document, open included document, re-send identical text, close root} against the still-parked diagnostics task of the previous notification and {no request | one of the 8 request kinds | thorough: every pair of request kinds} - every interleaving of the schedule points (verif hooks) with at most 1 preemption (thorough: 3) is enumerated by stateless DFS; a released thread that does not reach its next point is classified running/blocked from /proc; deadlock = no actor can be released while some are blocked. Uncontrolled part: bursts of 3..9 operations (didOpen/didChange/didClose of a root, its included document and a third independent document back to back, each of the 8 request kinds, sub-3ms pauses) on documents of 1..300 classes, half of them with documents that carry diagnostics and a root that sometimes drops its include (files with published problems leave the workspace); all 8x2 change-then-request pairs, request floods (2..32 requests written back to back, then an edit and one more request), 8x5x2 workspace-switch sequences and 40 wide-workspace sequences (a root with 40 or 300 includes and 200 or 3000 uses of one class; references / definition / documentLink / documentSymbol requests in flight; the next edit sent the moment publishing starts) enumerated; every request and a final barrier request must be answered; a missing answer is a deadlock only with evidence (all server threads asleep with unchanged context-switch counters over 4 samples), else inconclusive. distinct = digest of the schedule / operation list; non-trivial = a step at which the handler and a task could both be released (controlled), >=2 document notifications in flight with >=1 request (bursts)".into()
+        "the real Server (router + lifecycle + concurrency layers) in-process over an in-memory pipe. Controlled part: per scenario - handler under test in {change root, change included document, open included document, re-send identical text, close root} against the still-parked diagnostics task of the previous notification and {no request | one of the 8 request kinds | thorough: every pair of request kinds} - every interleaving of the schedule points (verif hooks) with at most 1 preemption (thorough: 3) is enumerated by stateless DFS; a released thread that does not reach its next point is classified running/blocked from /proc; deadlock = no actor can be released while some are blocked. Uncontrolled part: bursts of 3..9 operations (didOpen/didChange/didClose of a root, its included document and a third independent document back to back, each of the 8 request kinds, sub-3ms pauses) on documents of 1..300 classes, half of them with documents that carry diagnostics and a root that sometimes drops its include (files with published problems leave the workspace); all 8x2 change-then-request pairs, request floods (2..32 requests written back to back, then an edit and one more request), 8x5x2 workspace-switch sequences and 40 wide-workspace sequences (a root with 40 or 300 includes and 200 or 3000 uses of one class; references / definition / documentLink / documentSymbol requests in flight; the next edit sent the moment publishing starts) enumerated; every request and a final barrier request must be answered; a missing answer is a deadlock only with evidence (all server threads asleep with unchanged context-switch counters over 4 samples, and again, with the very same counters, three seconds later - a deadlock lasts, an answer that is merely late on a loaded machine arrives), else inconclusive; in the controlled part a state without a releasable actor is likewise confirmed after a second and a half. distinct = digest of the schedule / operation list; non-trivial = a step at which the handler and a task could both be released (controlled), >=2 document notifications in flight with >=1 request (bursts)".into()
     }
     fn assumptions(&self) -> Vec<String> {
         vec!["OS scheduling decides the interleaving in the uncontrolled part; liveness is checked as 'answers within the patience window', blocked-thread evidence from /proc/self/task".into()]
